@@ -97,9 +97,10 @@ def tier_seed(argv_tier):
 class StateSpec(engine.Spec):
     """on_state = fn(conf, hist, G, M) -> (list of (sub, sig, detail), counters, sets)"""
 
-    def __init__(self, prop, fn):
+    def __init__(self, prop, fn, pure=False):
         self.prop = prop
         self.fn = fn
+        self.pure_queries = pure
 
     def on_state(self, conf, hist, G, M):
         trip, cnt, sets = self.fn(conf, hist, G, M)
@@ -110,13 +111,13 @@ class StateSpec(engine.Spec):
 
 def run_state_property(prop, level, fn, tier, seed, classes=('DynGraph', 'DynDiGraph'), modes=(True,),
                        which=('U0', 'U1', 'U2', 'TWO', 'U3', 'LONG', 'UC'), flavours=(0, 1, 2, 3, 5, 6), rule='', params=None,
-                       assumptions=(), vacuity=None, sample_fn=None, opfilter=None, reduced=None, acc_reduced=False):
+                       assumptions=(), vacuity=None, sample_fn=None, opfilter=None, reduced=None, acc_reduced=False, pure=False):
     known = common.load_known()
     rep = common.Report(prop, tier, seed, level)
     p = dict(tier_params(tier))
     if params:
         p.update(params)
-    spec = StateSpec(prop, fn)
+    spec = StateSpec(prop, fn, pure)
     sums = {}
     reduced_cfg = reduced
     for fl, reduced in flavours_for(tier, seed, flavours):
